@@ -24,34 +24,120 @@ theorem rows_ok : ∀ i, i < 696 →
     RowSpec i (Sonic.Gen.kPow10M128Tab.getD i (0, 0)).1 (Sonic.Gen.kPow10M128Tab.getD i (0, 0)).2 := by
   decide +kernel
 
-/-- what `Good` says when the written exponent is below 100000 in magnitude -/
-theorem good_acc (t : Token) (fin : Nat) (f : FloatIn) (hg : Good t fin f) (hexp : (expVal t.exp).natAbs < 100000) :
+theorem clampExp10_cases (x : Int) :
+    clampExp10 x = x ∨ (x > 100000 ∧ clampExp10 x = 100000) ∨ (x < -100000 ∧ clampExp10 x = -100000) := by
+  unfold clampExp10
+  by_cases h1 : x > 100000
+  · rw [if_pos h1]; exact Or.inr (Or.inl ⟨h1, rfl⟩)
+  · rw [if_neg h1]
+    by_cases h2 : x < -100000
+    · rw [if_pos h2]; exact Or.inr (Or.inr ⟨h2, rfl⟩)
+    · rw [if_neg h2]; exact Or.inl rfl
+
+theorem token_digits (s : List Nat) (t : Token) (h : scanToken s = some t) : ∀ c ∈ allDigits t, isD c = true := by
+  obtain ⟨hids, _, hfds, _⟩ := Sonic.Proofs.Dec.scanToken_struct s t h
+  intro c hc
+  unfold allDigits at hc
+  rcases List.mem_append.1 hc with h | h
+  · exact hids c h
+  · cases hf : t.fracDigits with
+    | none => rw [hf] at h; simp at h
+    | some fs => rw [hf] at h; exact hfds fs hf c (by simpa using h)
+
+/-- **What `Good` says about `exp10`** (no bound on the written exponent).  With `k` the number of mantissa digits that
+    were dropped: `man·10^k ≤ mantissa < (man+1)·10^k`, and `exp10` is the exact decimal exponent `exponent + k` — or,
+    when that is beyond `±100000`, the clamp `±100000` on the same side.  (A written exponent of `10^16` or more
+    saturates the 64-bit accumulator in `[10^15, 10^16)`; for a token shorter than `2^32` bytes the digit counts cannot
+    compensate that, so the clamp is still on the correct side.) -/
+theorem good_tri (t : Token) (fin : Nat) (f : FloatIn) (hg : Good t fin f) (hall : ∀ c ∈ allDigits t, isD c = true)
+    (hl : (expVal t.exp).natAbs < 10000000000000000 ∨ t.len < 2 ^ 32) :
+    ∃ k : Nat, f.man * 10 ^ k ≤ t.mantissa ∧ t.mantissa < (f.man + 1) * 10 ^ k ∧
+      (f.trunc = false → k = 0 ∧ f.man = t.mantissa) ∧
+      (f.exp10 = t.exponent + k ∨ (t.exponent + k > 100000 ∧ f.exp10 = 100000) ∨
+        (t.exponent + k < -100000 ∧ f.exp10 = -100000)) := by
+  obtain ⟨k, ev', h1, h2, h3, h4, h5, h6, h7⟩ := hg.acc
+  have hexpo := exponent_eq t
+  refine ⟨k, h1, h2, ?_, ?_⟩
+  · intro htr
+    have hk := h3 htr
+    subst hk
+    simp only [Nat.pow_zero, Nat.mul_one] at h1 h2
+    exact ⟨rfl, by omega⟩
+  · by_cases hsmall : (expVal t.exp).natAbs < 10000000000000000
+    · have hev := h5 hsmall
+      subst hev
+      have hw : expVal t.exp - (fracLen t : Int) + (k : Int) = t.exponent + k := by omega
+      rw [hw] at h4
+      cases hex : t.exp.isSome with
+      | false => rw [hex] at h4; simp only [Bool.false_eq_true, if_false] at h4; exact Or.inl h4
+      | true =>
+        rw [hex] at h4; simp only [if_true] at h4
+        rw [h4]; exact clampExp10_cases _
+    · have hbig : 10000000000000000 ≤ (expVal t.exp).natAbs := by omega
+      have htl : t.len < 2 ^ 32 := by rcases hl with h | h; exact absurd h hsmall; exact h
+      have hsome : t.exp.isSome = true := by
+        cases hex : t.exp with
+        | none => rw [hex] at hbig; simp [expVal] at hbig
+        | some e => rfl
+      rw [hsome] at h4
+      simp only [if_true] at h4
+      obtain ⟨hD1, hD2⟩ := Sonic.Proofs.Dec.allDigits_le_len t
+      have hMlt := digitsVal_lt (allDigits t) hall
+      rw [← mantissa_eq] at hMlt
+      have hk : k ≤ (allDigits t).length := by
+        by_cases hm0 : f.man = 0
+        · have htf : f.trunc = false := by
+            cases hh : f.trunc with
+            | false => rfl
+            | true => have := hg.trunc_big hh; omega
+          have := h3 htf; omega
+        · have hpk : 10 ^ k ≤ t.mantissa := by
+            have : 1 * 10 ^ k ≤ f.man * 10 ^ k := Nat.mul_le_mul_right _ (Nat.pos_of_ne_zero hm0)
+            omega
+          have : 10 ^ k < 10 ^ (allDigits t).length := Nat.lt_of_le_of_lt hpk hMlt
+          exact Nat.le_of_lt ((Nat.pow_lt_pow_iff_right (by omega)).1 this)
+      have hsat := h7 hbig
+      unfold clampExp10 at h4
+      rcases Int.lt_or_lt_of_ne (show expVal t.exp ≠ 0 by omega) with hn | hp
+      · have := hsat.2 hn
+        right; right
+        refine ⟨by omega, ?_⟩
+        rw [h4, if_neg (by omega), if_pos (by omega)]
+      · have := hsat.1 hp
+        right; left
+        refine ⟨by omega, ?_⟩
+        rw [h4, if_pos (by omega)]
+
+/-- `good_tri` when `exp10` is inside the range of the fast paths (`[-348, 347]`): it is the exact exponent -/
+theorem good_exact (t : Token) (fin : Nat) (f : FloatIn) (hg : Good t fin f) (hall : ∀ c ∈ allDigits t, isD c = true)
+    (hl : (expVal t.exp).natAbs < 10000000000000000 ∨ t.len < 2 ^ 32) (hr : -348 ≤ f.exp10 ∧ f.exp10 ≤ 347) :
     ∃ k : Nat, f.exp10 = t.exponent + k ∧ f.man * 10 ^ k ≤ t.mantissa ∧ t.mantissa < (f.man + 1) * 10 ^ k ∧
       (f.trunc = false → k = 0 ∧ f.man = t.mantissa ∧ f.exp10 = t.exponent) := by
-  obtain ⟨k, ev', h1, h2, h3, h4, h5, _⟩ := hg.acc
-  have hev := h5 hexp
-  subst hev
-  refine ⟨k, by rw [exponent_eq, h4], h1, h2, ?_⟩
-  intro htr
-  have hk := h3 htr
-  subst hk
-  simp only [Nat.pow_zero, Nat.mul_one] at h1 h2
-  refine ⟨rfl, by omega, ?_⟩
-  rw [exponent_eq, h4]; simp
+  obtain ⟨k, h1, h2, h3, h4⟩ := good_tri t fin f hg hall hl
+  have he : f.exp10 = t.exponent + k := by
+    rcases h4 with h | ⟨_, h⟩ | ⟨_, h⟩ <;> omega
+  refine ⟨k, he, h1, h2, fun htr => ?_⟩
+  obtain ⟨hk, hm⟩ := h3 htr
+  exact ⟨hk, hm, by rw [he, hk]; simp⟩
 
 theorem round_zero (neg : Bool) (e : Int) : Sonic.Spec.Rne.round neg 0 e = some (zeroBits neg) := by
   unfold Sonic.Spec.Rne.round zeroBits; simp
 
-/-- **The conversion phase, all branches.**  At `double_fast` in a `Good` state for the token `t` (which is not
-    stored as an integer), whatever branch `convert` takes — zero, exact fast path, `ParseFloatingNormalFast`,
-    Eisel–Lemire (once or with the `man + 1` retry), `AtofNative` — the outcome is the correctly rounded double of
-    the exact decimal, or `kParseErrorInfinity` exactly when the reference says "rounds to infinity". -/
+theorem el_none_of_range (m : Nat) (e : Int) (neg : Bool) (h : e < -348 ∨ e > 347) :
+    Sonic.Model.EiselLemire.atofEiselLemire64 m e neg = none := by
+  rw [Sonic.Proofs.EL.el_eq, if_pos h]
+
+/-- **The conversion phase, all branches, any written exponent.**  At `double_fast` in a `Good` state for the token
+    `t`, whatever branch `convert` takes — zero, exact fast path, `ParseFloatingNormalFast`, Eisel–Lemire (once or
+    with the `man + 1` retry), `AtofNative` — the outcome is the correctly rounded double of the exact decimal, or
+    `kParseErrorInfinity` exactly when the reference says "rounds to infinity".  (When `exp10` was clamped to
+    `±100000` all fast paths decline and `AtofNative`, which re-reads the text, decides.) -/
 theorem convert_round (t : Token) (fin : Nat) (f : FloatIn) (native : List Nat) (hg : Good t fin f)
-    (hexp : (expVal t.exp).natAbs < 100000) (ht' : scanToken native = some t)
+    (hl : (expVal t.exp).natAbs < 10000000000000000 ∨ t.len < 2 ^ 32) (ht' : scanToken native = some t)
     (hguard : nativeGuard t (native.drop t.len) = true) :
     (∃ b p, Sonic.Spec.Rne.round t.neg t.mantissa t.exponent = some b ∧ convert f native = .ok (.real b) fin p) ∨
     (Sonic.Spec.Rne.round t.neg t.mantissa t.exponent = none ∧ convert f native = .err errInfinity fin) := by
-  obtain ⟨k, hk, hk1, hk2, htr⟩ := good_acc t fin f hg hexp
+  obtain ⟨k, hk1, hk2, htr, hexp10⟩ := good_tri t fin f hg (token_digits native t ht') hl
   have hnext := hg.next
   have hneg := hg.neg
   have hman := hg.man_lt
@@ -60,15 +146,28 @@ theorem convert_round (t : Token) (fin : Nat) (f : FloatIn) (native : List Nat) 
     cases hh : f.trunc with
     | false => rfl
     | true => have := hg.trunc_big hh; omega
+  -- the answer of the native fall-back, whenever it is reached
+  have hnative : convert f native = nativeTail f native →
+      (∃ b p, Sonic.Spec.Rne.round t.neg t.mantissa t.exponent = some b ∧ convert f native = .ok (.real b) fin p) ∨
+      (Sonic.Spec.Rne.round t.neg t.mantissa t.exponent = none ∧ convert f native = .err errInfinity fin) := by
+    intro hc
+    have hnt := nativeTail_correct f native t ht' hguard hl
+    rw [hc, hnt]
+    cases hround : Sonic.Spec.Rne.round t.neg t.mantissa t.exponent with
+    | none => right; exact ⟨rfl, by rw [hnext]⟩
+    | some b => left; exact ⟨b, .native, rfl, by rw [hnext]⟩
   rcases convert_cases f native with ⟨h0, h'⟩ | ⟨h0, hc, d, hd, h'⟩ | ⟨h0, raw, h'⟩ | ⟨h0, h'⟩
   · -- zero
-    obtain ⟨_, hm, _⟩ := htr (htrunc_small (by rw [h0]; decide))
+    obtain ⟨_, hm⟩ := htr (htrunc_small (by rw [h0]; decide))
     left
     refine ⟨zeroBits t.neg, .zero, ?_, by rw [h', hneg, hnext]⟩
     rw [← hm, h0]; exact round_zero _ _
   · -- exact fast path
     have hlt : f.man < 2 ^ 52 := (Nat.div_eq_zero_iff_lt (by decide)).1 hc.1
-    obtain ⟨_, hm, he⟩ := htr (htrunc_small (Nat.lt_trans hlt (by decide)))
+    obtain ⟨hk0, hm⟩ := htr (htrunc_small (Nat.lt_trans hlt (by decide)))
+    have he : f.exp10 = t.exponent := by
+      have := hc.2.1; have := hc.2.2
+      rcases hexp10 with h | ⟨_, h⟩ | ⟨_, h⟩ <;> omega
     have hr := Sonic.Proofs.Rne.fast_exact_signed f.neg f.man f.exp10 (by omega) (Nat.lt_trans hlt (by decide))
       hc.2.2 (by have := hc.2.1; omega) d hd
     rw [hneg, hm, he] at hr
@@ -77,7 +176,9 @@ theorem convert_round (t : Token) (fin : Nat) (f : FloatIn) (native : List Nat) 
     obtain ⟨_, htf, he1, he2, raw', hraw, hv, _⟩ := convert_normalfast f native _ _ h'
     simp only [JNum.real.injEq] at hv
     subst hv
-    obtain ⟨_, hm, he⟩ := htr htf
+    obtain ⟨hk0, hm⟩ := htr htf
+    have he : f.exp10 = t.exponent := by
+      rcases hexp10 with h | ⟨_, h⟩ | ⟨_, h⟩ <;> omega
     have hr := Sonic.Proofs.NormalFast.normalfast_correct rows_ok f.man f.exp10 f.neg raw (by omega)
       (Nat.lt_trans hman (by decide)) (by omega) (by omega) hraw
     rw [hneg, hm, he] at hr
@@ -88,12 +189,16 @@ theorem convert_round (t : Token) (fin : Nat) (f : FloatIn) (native : List Nat) 
       obtain ⟨_, _, b, hv, hel, hcase⟩ := convert_el f native _ _ p hp hconv
       simp only [JNum.real.injEq] at hv
       subst hv
+      have hin : ¬ (f.exp10 < -348 ∨ f.exp10 > 347) := by
+        intro hr; rw [el_none_of_range _ _ _ hr] at hel; cases hel
+      have he : f.exp10 = t.exponent + k := by
+        rcases hexp10 with h | ⟨_, h⟩ | ⟨_, h⟩ <;> omega
       have h64 : f.man + 1 < 2 ^ 64 := Nat.lt_of_lt_of_le (Nat.succ_lt_succ hman) (by decide)
       have hlo := Sonic.Proofs.EL.el_correct f.man f.exp10 f.neg v (by omega) (by omega) rows_ok hel
       have hr : Sonic.Spec.Rne.round t.neg t.mantissa t.exponent = some v := by
         rcases hcase with ⟨_, htf⟩ | ⟨_, _, hel2⟩
-        · obtain ⟨_, hm, he⟩ := htr htf
-          rw [← hneg, ← hm, ← he]; exact hlo
+        · obtain ⟨hk0, hm⟩ := htr htf
+          rw [← hneg, ← hm, show t.exponent = f.exp10 by omega]; exact hlo
         · rw [Nat.mod_eq_of_lt h64] at hel2
           have hhi := Sonic.Proofs.EL.el_correct (f.man + 1) f.exp10 f.neg v (by omega) h64 rows_ok hel2
           have := Sonic.Proofs.Rne.retry_sound f.neg f.man f.exp10 k t.mantissa (some v) hlo hhi hk1
@@ -101,11 +206,7 @@ theorem convert_round (t : Token) (fin : Nat) (f : FloatIn) (native : List Nat) 
           rw [← hneg, show t.exponent = f.exp10 - (k : Int) by omega]; exact this
       left; exact ⟨v, p, hr, by rw [hconv, hnext]⟩
     · -- AtofNative
-      have hnt := nativeTail_correct f native t ht' hguard hexp
-      rw [h', h'', hnt]
-      cases hround : Sonic.Spec.Rne.round t.neg t.mantissa t.exponent with
-      | none => right; exact ⟨rfl, by rw [hnext]⟩
-      | some b => left; exact ⟨b, .native, rfl, by rw [hnext]⟩
+      exact hnative (by rw [h', h''])
 
 open Sonic.Proofs.Parse (NumAgrees numOut NumOut)
 
@@ -115,15 +216,17 @@ theorem token_len_pos (s : List Nat) (t : Token) (h : scanToken s = some t) : 1 
   unfold Token.len; omega
 
 /-- **The whole number model is correct.**  If the reference finds the token `t` at `start`, the token ends at or
-    before `len` (the `len_ - pos_ + 1` bytes handed to `AtofNative` contain it), its written exponent is below
-    100000 in magnitude (known finding F6) and the byte after it satisfies `nativeGuard` (known finding: `AtofNative`
-    reads the rest of the buffer), then `parseNumber` — whichever of its paths it takes: integer kinds, literal zero,
+    before `len` (the `len_ - pos_ + 1` bytes handed to `AtofNative` contain it), the token is shorter than `2^32`
+    bytes (only needed for a written exponent of `10^16` and more: the 64-bit accumulators saturate at `10^15`, and the
+    digit counts must not be able to compensate that) and the byte after it satisfies `nativeGuard` (known finding:
+    `AtofNative` reads the rest of the buffer), then `parseNumber` — whichever of its paths it takes: integer kinds, literal zero,
     exact fast path, `ParseFloatingNormalFast`, Eisel–Lemire with or without retry, `AtofNative` — returns what the
     reference returns: same kind and value, same end index (`start < next ≤ len`), and `kParseErrorInfinity` exactly
     when the reference says "rounds to infinity". -/
 theorem parseNumber_correct (buf : List Nat) (len start : Nat) (t : Token)
     (ht : scanToken (buf.drop start) = some t) (hlen : start + t.len ≤ len)
-    (hexp : (expVal t.exp).natAbs < 100000) (hg : nativeGuard t ((buf.drop start).drop t.len) = true) :
+    (hexp : (expVal t.exp).natAbs < 10000000000000000 ∨ t.len < 2 ^ 32)
+    (hg : nativeGuard t ((buf.drop start).drop t.len) = true) :
     NumAgrees start len (scanNumber buf start) (numOut (parseNumber buf len start)) := by
   have hpos := token_len_pos _ t ht
   have hok : ∀ v p, t.value = some v → parseNumber buf len start = .ok v (start + t.len) p →
